@@ -16,7 +16,21 @@ mod u;
 use common::Ctx;
 use std::io::{BufRead, Write};
 
+/// Per-case watchdog: the real code can take exponential time on rare generated inputs (e.g. the
+/// backward chainer on some recursive shapes). Such a case is reported as `slow:>Ns` and skipped by
+/// `check` (counted in the evidence), never compared. The worker thread is leaked.
 fn exec_guarded(f: fn(&str) -> String, req: &str) -> String {
+    let limit = std::env::var("ILVH_CASE_TIMEOUT").ok().and_then(|s| s.parse::<u64>().ok()).unwrap_or(120);
+    let (tx, rx) = std::sync::mpsc::channel();
+    let req2 = req.to_string();
+    std::thread::Builder::new().stack_size(64 << 20).spawn(move || { let _ = tx.send(exec_inner(f, &req2)); }).ok();
+    match rx.recv_timeout(std::time::Duration::from_secs(limit)) {
+        Ok(s) => s,
+        Err(_) => format!("slow:>{}s", limit),
+    }
+}
+
+fn exec_inner(f: fn(&str) -> String, req: &str) -> String {
     let r = std::panic::catch_unwind(|| f(req));
     match r {
         Ok(s) => s.replace(['\t', '\n', '\r'], " "),
